@@ -2,13 +2,13 @@
 from . import _proto
 
 LEVEL = "other"
-RULES = {"C02.R1", "C02.R2", "C02.R4", "C02.R5", "C02.R6"}
+RULES = {"C02.R1", "C02.R2", "C02.R4", "C02.R5", "C02.R6", "C02.R7"}
 
 
 def run(tier):
     return _proto.run_rules(
         "C02", LEVEL, RULES,
-        {"C02.R1": 8, "C02.R2": 12, "C02.R4": 4, "C02.R5": 26, "C02.R6": 5},
+        {"C02.R1": 4, "C02.R2": 12, "C02.R4": 4, "C02.R5": 26, "C02.R6": 5},
         "sibling agreement between try_sign and try_verify of the 4 public protocols: the consumer cuts the message at len - (signature length of the specification), the length guard rejects only "
         "payloads shorter than a signature, both sides authenticate the same PAE component list (v3: compressed public key first), the producer emits message || signature(PAE); wrappers forward key, footer, assertion",
         ["correctness of RSA-PSS (ring), Ed25519 (ed25519-dalek) and ECDSA P-384 (p384): verify(sign(m)) holds for a valid key pair"],
